@@ -11,13 +11,13 @@
      d's start schedules matches m, d is not suspended, not running, and its latest run started before m - so no
      minute is missed and none is started twice; Stop only on running DAGs; Restart at each matching minute; an
      unloadable file never affects the other DAGs.
-   Three defects of the pinned tree contradicted it; two classes are repaired in /repo and the model follows the
+   Three classes of defects of the pinned tree contradicted it; all are repaired in /repo and the model follows the
    repaired code: F9a (a schedule without activation up to the end of year+5 made Next return the zero time and the
-   entry was invoked at every tick; now skipped) and F13a/F13b (a file on which the schedule loader panicked killed
-   the daemon; now a load error).  For these the clauses are proved in full (C09_due, C09_start_iff, C09_stop_iff,
-   C09_restart_iff, C09_no_miss, C09_bad_file_others, C09_alive).  One remains: two start schedules of one DAG that
-   match the same minute start it twice (F9b) - C09_start_once_partial / C09_no_double_partial carry the exclusion
-   as a decidable premise, C09_start_once_refuted / C09_no_double_refuted are the witnesses. *)
+   entry was invoked at every tick; 24d4f27), F9b (two start schedules of one DAG matching the same minute started
+   it twice; 7357cf4: one entry per DAG and operation) and F13a/F13b (a file on which the schedule loader panicked
+   killed the daemon; c2912bd, 519d0a6).  Every clause is now proved in full - no _partial, no _refuted theorem
+   remains.  What C09_no_double still assumes (tick minutes never decrease, a tick never runs before its minute, the
+   reported latest start never moves backwards) delimits the histories the property speaks about; see ProofsSeq.v. *)
 From Coq Require Import List String ZArith Bool.
 Import ListNotations.
 From BD.Cron Require Import Model Schedule ProofsCal ProofsNext ProofsSched.
@@ -111,23 +111,28 @@ Theorem C09_tick_count : forall s m c, NoDup (map fst (tbl s)) ->
 Proof. exact tick_count. Qed.
 Print Assumptions C09_tick_count.
 
+(* b2n true = 1, b2n false = 0; hit m sps = some schedule of the list fires at minute m *)
+Theorem C09_hit_iff : forall m sps, hit m sps = true <-> exists sp, In sp sps /\ matches sp m = true.
+Proof. exact hit_iff. Qed.
+Print Assumptions C09_hit_iff.
+
 Theorem C09_start_iff : forall s m, NoDup (map fst (tbl s)) ->
   forall f e, lookup f (tbl s) = Some e ->
   count (CStart f) (tick_calls s m) =
-  if alive s && negb (mem f (susp s)) && start_guard (status_of s f) m then matching m (starts e) else 0%nat.
+  b2n (alive s && negb (mem f (susp s)) && start_guard (status_of s f) m && hit m (starts e)).
 Proof. exact start_iff. Qed.
 Print Assumptions C09_start_iff.
 
 Theorem C09_stop_iff : forall s m, NoDup (map fst (tbl s)) ->
   forall f e, lookup f (tbl s) = Some e ->
   count (CStop f) (tick_calls s m) =
-  if alive s && negb (mem f (susp s)) && stop_guard (status_of s f) then matching m (stops e) else 0%nat.
+  b2n (alive s && negb (mem f (susp s)) && stop_guard (status_of s f) && hit m (stops e)).
 Proof. exact stop_iff. Qed.
 Print Assumptions C09_stop_iff.
 
 Theorem C09_restart_iff : forall s m, NoDup (map fst (tbl s)) ->
   forall f e, lookup f (tbl s) = Some e ->
-  count (CRestart f) (tick_calls s m) = if alive s && negb (mem f (susp s)) then matching m (restarts e) else 0%nat.
+  count (CRestart f) (tick_calls s m) = b2n (alive s && negb (mem f (susp s)) && hit m (restarts e)).
 Proof. exact restart_iff. Qed.
 Print Assumptions C09_restart_iff.
 
@@ -155,23 +160,23 @@ Theorem C09_restart_in_iff : forall s m, NoDup (map fst (tbl s)) ->
 Proof. exact restart_in_iff. Qed.
 Print Assumptions C09_restart_in_iff.
 
-(* full statement: count (CStart f) (tick_calls s m) <= 1 without the premise   (false: C09_start_once_refuted) *)
-Theorem C09_start_once_partial : forall s m, NoDup (map fst (tbl s)) ->
-  forall f e, lookup f (tbl s) = Some e ->
-  (matching m (starts e) <= 1)%nat -> (count (CStart f) (tick_calls s m) <= 1)%nat.
-Proof. exact start_once. Qed.
-Print Assumptions C09_start_once_partial.
+(* at most one call of each kind per DAG and tick - every table, every status, every list of schedules *)
+Theorem C09_start_once : forall s m, NoDup (map fst (tbl s)) -> forall c, (count c (tick_calls s m) <= 1)%nat.
+Proof. exact call_once. Qed.
+Print Assumptions C09_start_once.
 
 Theorem C09_unknown_file_silent : forall s m, NoDup (map fst (tbl s)) ->
   forall c, lookup (call_file c) (tbl s) = None -> count c (tick_calls s m) = 0%nat.
 Proof. exact unknown_file_silent. Qed.
 Print Assumptions C09_unknown_file_silent.
 
-(* F9b *)
-Theorem C09_start_once_refuted : exists s m f e,
-  NoDup (map fst (tbl s)) /\ lookup f (tbl s) = Some e /\ count (CStart f) (tick_calls s m) = 2%nat.
-Proof. exact start_once_refuted. Qed.
-Print Assumptions C09_start_once_refuted.
+(* the input that used to be started twice (F9b) *)
+Example C09_former_overlap :
+  run (init_state d_f9b) [ORestart; OTick m0 (60 * m0); OTick (m0 + 1) (60 * m0 + 60)] = [[]; [CStart "d0.yaml"]; []]%string /\
+  count (CStart "d0.yaml"%string) (tick_calls (after d_f9b [ORestart]) m0) = 1%nat /\
+  List.length (filter (fun sp => matches sp m0) (starts (entry_of (after d_f9b [ORestart]) "d0.yaml"%string))) = 2%nat /\
+  starts_at "d0.yaml"%string m0 (init_state d_f9b) [ORestart; OTick m0 (60 * m0)] = 1%nat.
+Proof. exact former_overlap_starts_once. Qed.
 
 Example C09_start_iff_sat : exists s m f e,
   NoDup (map fst (tbl s)) /\ lookup f (tbl s) = Some e /\
@@ -248,23 +253,20 @@ Theorem C09_no_miss_restart : forall s0 ops, Inv s0 ->
 Proof. exact no_miss_restart. Qed.
 Print Assumptions C09_no_miss_restart.
 
-(* full statement: the same without the `at most one due start schedule` conjunct of step_ok
-                                                                              (false: C09_no_double_refuted) *)
-Theorem C09_no_double_partial : forall ops s f m0, NoDup (map fst (tbl s)) -> ticks_mono ops -> trace_ok f s ops ->
+(* no minute is started twice: over every history - whatever the schedules, the lag, the restarts, the edits - the
+   ticks of any minute m0 issue at most one Start for f.  ticks_mono (tick minutes never decrease), and trace_ok (a
+   tick never runs before its minute; the latest start reported for f never moves backwards) say which operation
+   lists are histories of a daemon and its environment; they exclude no DAG, schedule or file content. *)
+Theorem C09_no_double : forall ops s f m0, NoDup (map fst (tbl s)) -> ticks_mono ops -> trace_ok f s ops ->
   (starts_at f m0 s ops <= 1)%nat.
 Proof. exact no_double. Qed.
-Print Assumptions C09_no_double_partial.
+Print Assumptions C09_no_double.
 
 (* the premises are decidable *)
-Theorem C09_no_double_partial_dec : forall ops s f m0, NoDup (map fst (tbl s)) ->
+Theorem C09_no_double_dec : forall ops s f m0, NoDup (map fst (tbl s)) ->
   ticks_monob ops = true -> trace_okb f s ops = true -> (starts_at f m0 s ops <= 1)%nat.
 Proof. exact no_double_b. Qed.
-Print Assumptions C09_no_double_partial_dec.
-
-(* F9b *)
-Theorem C09_no_double_refuted : exists d ops f m, ticks_mono ops /\ starts_at f m (init_state d) ops = 2%nat.
-Proof. exact no_double_refuted. Qed.
-Print Assumptions C09_no_double_refuted.
+Print Assumptions C09_no_double_dec.
 
 (* a file whose load returns an error changes nothing the daemon believes; at start-up it is skipped *)
 Theorem C09_bad_file : forall s f c, (load f c = FErr \/ load f c = FNotDag) ->
